@@ -356,6 +356,20 @@ Next == \/ \E o \in AllOps : Step(o)
         \/ Reopen
 Spec == Init /\ [][Next]_st
 
+\* The same transition relation with the fault point chosen *inside* the action (one evaluation of the
+\* program per call instead of one per (call, fault point, mode)): used for the exhaustive runs, where the
+\* label of a transition is not needed.  Next (labels carry n and m) is used for the graph dump.
+FailA(o) == /\ More /\ st.open /\ (MaxFaults >= Unlimited \/ st.nf < MaxFaults)
+            /\ Enabled(o, st) /\ o.loc # "ext"
+            /\ LET prog == Plan(o, st).prog
+                   fp == FaultPos(prog) IN
+               \E n \in 1..Len(fp) :
+                  st' = Tick([Run(prog, st, fp[n] - 1) EXCEPT !.nf = IF MaxFaults >= Unlimited THEN 0 ELSE @ + 1])
+NextA == \/ \E o \in AllOps : Step(o)
+         \/ \E o \in AllOps : FailA(o)
+         \/ Reopen
+SpecA == Init /\ [][NextA]_st
+
 \* bound for the graph dump (single worker, so that levels are exact)
 Perms == Permutations(Ids)
 Bound == TLCGet("level") < MaxLevel
